@@ -408,6 +408,37 @@ func harnessIntrinsic(fn *ssa.Function) intrinsicFn {
 		return func(in *Interp, fn *ssa.Function, a []Value) Value {
 			return in.tb.Int(in.concretize(in.term(a[0], "vConcrete"), "vConcrete"))
 		}
+	case "vPar":
+		// vPar(shared, a, b): two logical threads over a shared heap. The engine runs the bodies one after the other,
+		// recording each one's access trace; every interleaving is then covered by the schedule query.
+		return func(in *Interp, fn *ssa.Function, a []Value) Value {
+			if in.access == nil {
+				in.access = &accessLog{}
+			}
+			objs, maps := map[*Object]bool{}, map[*MapV]bool{}
+			in.reachable(a[0], objs, maps)
+			run := func(name string, f Value) *ThreadTrace {
+				t := &ThreadTrace{Name: name}
+				in.access.cur = t
+				in.callValue(f, nil, "vPar")
+				in.access.cur = nil
+				return t
+			}
+			ta := run("A", a[1])
+			tb := run("B", a[2])
+			in.reachable(a[0], objs, maps) // objects published into the shared structure by the bodies
+			in.parRuns = append(in.parRuns, parRun{A: ta, B: tb, shared: objs})
+			return nil
+		}
+	case "vRandMark":
+		return func(in *Interp, fn *ssa.Function, a []Value) Value { return in.tb.Int(int64(len(in.nondets))) }
+	case "vRandRewind":
+		return func(in *Interp, fn *ssa.Function, a []Value) Value {
+			k := in.term(a[0], "vRandRewind")
+			in.randReplay = append([]Nondet{}, in.nondets[k.i:]...)
+			in.randPos = 0
+			return nil
+		}
 	case "vConcreteBool":
 		return func(in *Interp, fn *ssa.Function, a []Value) Value {
 			return in.tb.Bool(in.branch(in.term(a[0], "vConcreteBool")))
